@@ -827,3 +827,58 @@ for _k, _nm in ((0, "plain op"), (1, "Constant"), (2, "blacklisted op"), (3, "al
                                        "OptimizerState.get_sym_value is abstract: what the state knows about an input is an arbitrary function of the position"],
                               assumptions=["loop invariant and the any()/all() guards are used at one arbitrary (Skolem) input position; termination not proved"],
                               max_paths=40000, budget_s=900))
+
+
+# ------------------------------------------------------------------ _do_inference: which constants reach ONNX shape inference ---
+
+def s_do_inference(ctx):
+    """FoldConstantsPass._do_inference hands ONNX shape inference the VALUES of some inputs (data-dependent shapes: Reshape targets,
+    Slice bounds ...): only of inputs that are constants — never of an initializer that is also a graph input (a default the caller may
+    override), whose value would otherwise be baked into the inferred (static) output shape."""
+    import onnx
+    import onnx_ir as ir
+    from contracts.irmodel import World
+    cf = _cf()
+    I = Interp(ctx)
+    W = World(I)
+    p = SObj(cf.FoldConstantsPass, "pass")
+    p.fields.update(_opset_imports={"": 18})
+    vals, facts = [], []
+    for i in range(2):
+        has_const = ctx.choose(2, f"input{i} has a constant value") == 0
+        gi = ctx.choose(2, f"input{i} is a graph input") == 1
+        small = ctx.choose(2, f"input{i} is small") == 0
+        t = W.tensor([1, 2] if small else list(range(30)), ir.DataType.INT64) if has_const else None
+        v = W.value(f"in{i}", dims=[2 if small else 30], rt=[], dtype=ir.DataType.INT64, const=t, initializer=has_const, graph_input=gi)
+        vals.append(v)
+        facts.append((has_const, gi, small, t))
+    node = W.node("Reshape", vals)
+    given = []
+    I.models[ir.serde.serialize_tensor] = lambda interp, t: ("tensor proto of", t)
+    I.models[ir.serde.serialize_type] = lambda interp, t: ("type proto", t)
+    I.models[ir.serde.serialize_shape_into] = lambda interp, tp, sh: None
+    I.models[ir.serde.serialize_node] = lambda interp, n: ("node proto", n)
+    I.models[onnx.defs.get_schema] = lambda interp, *a, **k: "schema"
+    I.models[onnx.shape_inference.infer_node_outputs] = lambda interp, schema, nodeproto, types, data=None, *a, **k: (given.append(dict(data or {})) or {})
+    try:
+        I.call(I.getattr(p, "_do_inference"), [node])
+    except PyRaise:
+        ctx.check("C04.folding.do_inference.never_raises", False, "C04: 'return without raising'")
+        return
+    if not given:
+        ctx.cover("do_inference.skipped")
+        return
+    ctx.cover("do_inference.ran")
+    data = given[-1]
+    for i, (has_const, gi, small, t) in enumerate(facts):
+        nm = f"in{i}"
+        if nm in data:
+            ctx.check("C04.folding.do_inference.no_value_of_an_overridable_initializer_reaches_shape_inference", not gi,
+                      "C04: 'initializers that are also graph inputs (overridable defaults) are never folded into constants'")
+            ctx.check("C04.folding.do_inference.only_constant_values_reach_shape_inference", has_const and data[nm] == ("tensor proto of", t), "C03/C04")
+
+
+SCENARIOS.append(Scenario("C04.folding.do_inference", s_do_inference,
+                          F("FoldConstantsPass._do_inference", "FoldConstantsPass._do_inference.get_constant_value", "FoldConstantsPass._do_inference.get_type", "_get_numpy_value"),
+                          kind="bounded", bound="a node with two inputs, each with / without a constant value, graph input or not, 2 or 30 elements",
+                          trusted=["onnx.shape_inference.infer_node_outputs (onnx): uses the given input data for data-dependent output shapes"]))
